@@ -831,7 +831,68 @@ def roles(se):
     if len(sz) != 1 or sz[0].args[0] is None:
         raise TranslateError("expected one PhaseSpace::setSize(<grid size>, <bunches>) call in main(), found %d" % len(sz))
     R["axis_steps"] = sz[0].args[0]
+    # (st2h5) unit scales of the first grid: the constructor parameters PhaseSpace stores as the "Meter" scale of axis 0
+    # and the "ElectronVolt" scale of axis 1 (HDF5File reads them back with getScale(0,"Meter") / getScale(1,"ElectronVolt")
+    # and writes them as the attributes of the axes), and what main() passes for them - the natural bunch length and the
+    # absolute energy spread; the factories that build the grid from a file must receive the same two expressions
+    sc = ps_scale_params()
+    pq = find_sinks(se, "PhaseSpace", has=(sc["Meter"], sc["ElectronVolt"]))
+    if not pq:
+        raise TranslateError("main() no longer constructs a PhaseSpace with the scale parameters (%s, %s)" % (sc["Meter"], sc["ElectronVolt"]))
+    mv, ev = [s.arg(sc["Meter"]) for s in pq], [s.arg(sc["ElectronVolt"]) for s in pq]
+    for fn in PS_FACTORIES:
+        for s in find_sinks(se, fn):
+            qs = [p for p in s.params if isinstance(p, str) and re.fullmatch(r"[qx]scale", p)]
+            es = [p for p in s.params if isinstance(p, str) and re.fullmatch(r"[py]scale", p)]
+            if len(qs) != 1 or len(es) != 1:
+                raise TranslateError("%s no longer has one length-scale and one energy-scale parameter ([qx]scale, [py]scale): %s" % (fn, s.params))
+            mv.append(s.arg(qs[0]))
+            ev.append(s.arg(es[0]))
+    R["ps_scale_Meter"] = same_everywhere(mv, "the length scale (\"Meter\") handed to the PhaseSpace constructor / factories")
+    R["ps_scale_ElectronVolt"] = same_everywhere(ev, "the energy scale (\"ElectronVolt\") handed to the PhaseSpace constructor / factories")
     return R
+
+
+def ps_scale_params():
+    """{"Meter": <parameter name>, "ElectronVolt": <parameter name>} of the PhaseSpace constructor that builds its own
+    Rulers: the delegating initialiser must construct axis 0 as Ruler(.., {{"Meter", <param>}}) and axis 1 as
+    Ruler(.., {{"ElectronVolt", <param>}}) - one named scale per axis, each a plain constructor parameter."""
+    docs = ast_of(CLASS_SRC["PhaseSpace"], CLASS_FILTER.get("PhaseSpace", "PhaseSpace"))
+    found = []
+
+    def visit(d):
+        if d.get("kind") == "CXXConstructorDecl" and any(c.get("kind") == "CompoundStmt" for c in kids(d)):
+            params = [c.get("name") for c in kids(d) if c.get("kind") == "ParmVarDecl"]
+            rulers = []
+            for ini in [c for c in kids(d) if c.get("kind") == "CXXCtorInitializer"]:
+                for m in walk(ini):
+                    if m.get("kind") == "CXXConstructExpr" and re.match(r"(const )?(vfps::)?Ruler<", (m.get("type") or {}).get("qualType") or ""):
+                        pairs = []
+                        for x in walk(m):
+                            if x.get("kind") == "CXXConstructExpr" and "pair<" in ((x.get("type") or {}).get("qualType") or ""):
+                                ks = kids(x)
+                                lit = [y for y in walk(ks[0])] if ks else []
+                                strs = [y.get("value") for y in lit if y.get("kind") == "StringLiteral"]
+                                refs = [(y.get("referencedDecl") or {}) for k_ in ks[1:] for y in walk(k_) if y.get("kind") == "DeclRefExpr"]
+                                if len(ks) != 2 or len(strs) != 1 or len(refs) != 1 or refs[0].get("kind") != "ParmVarDecl" \
+                                        or refs[0].get("name") not in params:
+                                    raise TranslateError("a scale of a PhaseSpace axis is no longer {\"<unit>\", <constructor parameter>}")
+                                pairs.append((strs[0].strip('"'), refs[0]["name"]))
+                        rulers.append(pairs)
+            if rulers:
+                found.append(rulers)
+        for c in kids(d):
+            if c.get("kind") in ("CXXConstructorDecl", "CXXRecordDecl"):
+                visit(c)
+    for d in docs:
+        visit(d)
+    if len(found) != 1 or len(found[0]) != 2:
+        raise TranslateError("expected exactly one PhaseSpace constructor that builds its two Rulers itself, found %s" % found)
+    a0, a1 = found[0]
+    if [u for u, _ in a0] != ["Meter"] or [u for u, _ in a1] != ["ElectronVolt"]:
+        raise TranslateError("the PhaseSpace constructor no longer gives axis 0 the scale \"Meter\" and axis 1 the scale "
+                             "\"ElectronVolt\" (found %s, %s)" % (a0, a1))
+    return {"Meter": a0[0][1], "ElectronVolt": a1[0][1]}
 
 
 # --------------------------------------------------------------------------------------------
